@@ -8,7 +8,9 @@ open Gedcom Gedcom.Warn
   rec  := I <ptr> <nsex> sex* <nev> ev*            sex := M | F | X
         | F <ptr> <husb|-> <wife|-> <nchil> ptr* <nev> ev*
   ev   := <kind> <ndates> date*                    kind := BIRT|BAPM|BAPL|DEAT|BURI|MARR|OTHER
-  date := <d>.<m>.<y>  |  b<label>
+  date := h<hex of the DATE value>   (parsed here with C04's `parseDateRange`; `h-` = empty value)
+          | <d>.<m>.<y> | b<label>     (pre-classified, kept for replays of round-1 evidence)
+  every date is labelled with its position in the request (0-based)
   answer: the warnings in the order of Document.Warnings(), `;`-separated, `-` when none
 -/
 
@@ -20,8 +22,18 @@ def showKind : EvKind → String
   | .birt => "BIRT" | .bapm => "BAPM" | .bapl => "BAPL" | .deat => "DEAT"
   | .buri => "BURI" | .marr => "MARR" | .other => "OTHER"
 
+/-- what `NewDateRangeWithString` made of the value, sorted into the model's three shapes -/
+def classifyDate (r : DateRange) : DateV :=
+  let s := r.start
+  let e := r.end_
+  if s == e && !s.parseError && s.constraint == .exact && s.day != 0 && s.month != 0 &&
+      decide (1 ≤ s.year) && decide (s.year ≤ 9999) then .ok ⟨s.day, s.month, s.year⟩
+  else if s.parseError && e.parseError && s.isZero && e.isZero then .bad 0
+  else .gen 0 s e
+
 def parseDateV (s : String) : Option DateV :=
-  if s.startsWith "b" then (s.drop 1).toString.toNat?.map DateV.bad
+  if s.startsWith "h" then (fromHex (s.drop 1).toString).map fun v => classifyDate (parseDateRange v)
+  else if s.startsWith "b" then (s.drop 1).toString.toNat?.map DateV.bad
   else match s.splitOn "." with
     | [d, m, y] => do
       let d ← d.toNat?
@@ -87,7 +99,32 @@ def tokRec : List String → Option (Rec × List String)
     pure (.fam ⟨p, h, w, ch, evs⟩, rest)
   | _ => none
 
-def showDate (d : Date) : String := s!"{d.day}.{d.month}.{d.year}"
+def showDate : DateV → String
+  | .ok d => s!"{d.day}.{d.month}.{d.year}-{d.day}.{d.month}.{d.year}"
+  | .bad _ => "0.0.0-0.0.0"
+  | .gen _ s e => s!"{s.day}.{s.month}.{s.year}-{e.day}.{e.month}.{e.year}"
+
+/-! labels: every DATE gets its position in the document (records, events, dates in order) -/
+def relabelDate (n : Nat) : DateV → DateV
+  | .ok d => .ok d
+  | .bad _ => .bad n
+  | .gen _ s e => .gen n s e
+
+def relabelDates : Nat → List DateV → List DateV × Nat
+  | n, [] => ([], n)
+  | n, x :: xs => let (ys, m) := relabelDates (n + 1) xs; (relabelDate n x :: ys, m)
+
+def relabelEvs : Nat → List Ev → List Ev × Nat
+  | n, [] => ([], n)
+  | n, e :: es =>
+    let (ds, m) := relabelDates n e.dates
+    let (rest, k) := relabelEvs m es
+    (⟨e.kind, ds⟩ :: rest, k)
+
+def relabelRecs : Nat → List Rec → List Rec
+  | _, [] => []
+  | n, .indi i :: rs => let (es, m) := relabelEvs n i.events; .indi ⟨i.ptr, i.sexes, es⟩ :: relabelRecs m rs
+  | n, .fam f :: rs => let (es, m) := relabelEvs n f.events; .fam ⟨f.ptr, f.husb, f.wife, f.chil, es⟩ :: relabelRecs m rs
 
 def showWarning : Warning → String
   | .childBornBeforeParent f p c => s!"CBBP {f} {p} {c}"
@@ -106,7 +143,7 @@ def handleWarnings (cmd : String) (rest : List String) : Option String :=
     | d :: m :: y :: toks =>
       match d.toNat?, m.toNat?, y.toNat?, takeCount tokRec toks with
       | some d, some m, some y, some (doc, []) =>
-        let ws := warnings doc ⟨d, m, y⟩
+        let ws := warnings (relabelRecs 0 doc) ⟨d, m, y⟩
         some (if ws.isEmpty then "-" else ";".intercalate (ws.map showWarning))
       | _, _, _, _ => some "bad-op"
     | _ => some "bad-op"
